@@ -42,7 +42,7 @@ func (p c01) Batches(tier string, seed uint64) []core.Batch {
 	b = append(b, spread("corpus", 8, 0)...) // all pairs of the versions in this machine's dpkg database
 	b = append(b, spread("dpkg", 16, tierN(tier, 60, 400))...)
 	b = append(b, spread("perl", 4, tierN(tier, 5000, 40000))...)
-	return b
+	return append(b, conc(tierN(tier, 300, 2000), "rand", "less")...)
 }
 
 func (c01) Mandatory(tier string) []string {
@@ -123,6 +123,9 @@ func splitText(s string) model.Ver {
 }
 
 func (p c01) RunBatch(t *core.T, b core.Batch) {
+	if concDispatch(p, t, b) {
+		return
+	}
 	rc := ruleCount{}
 	defer rc.flush(t)
 	switch b.Name {
